@@ -36,13 +36,13 @@ def run(c):
     if c.replay:
         harness(c, ov, 1, 1, replay_ops=c.replay.get("replay_ops") or [])
     elif c.thorough:
-        harness(c, ov, 12000, 6000, race=True)
+        harness(c, ov, 60000, 20000, race=True)
     else:
-        harness(c, ov, 900, 500)
+        harness(c, ov, 3000, 1200)
 
     def search():
         c.seed += 1000
-        harness(c, ov, 6000, 3000)
+        harness(c, ov, 20000, 6000)
 
     c.trusted_base.append(
         "Go runtime semantics of channels (rendezvous, close), sync.Mutex, atomics, WaitGroup and timers as DEFINED by the step relation of Model/TimeWheel.lean; "
